@@ -911,6 +911,12 @@ def ob_capacity_gate(ctx, k, closed):
                     mf = z3.If(full[j] > mf, full[j], mf)
                 claims.append(val(fut[i]) == mf)
             if not decide_claim(ctx, res, env, st, z3.And(*claims), assume, what=f'{name} idx {p}: load caches == reference profile'):
+                if res.model is not None:
+                    m = res.model
+                    ev = lambda d: {key: _ev_int(m, d[key].t) for key in ('sp', 'dp', 'sd', 'dd')}
+                    res.case = {'kind': 'capacity_caches', 'closed': closed, 'shift_start': 0, 'dep0': 0, 'shift_end': 100000, 'l0': 0, 'lend': 0,
+                                'capacity': _ev_int(m, capacity.t), 'dur': [], 'dist': [], 'dur_default': 0, 'dist_default': 0,
+                                'jobs': [{'loc': i + 1, 'dur': 0, 'tws': 0, 'twe': None, 'demand': ev(d)} for i, d in enumerate(demands)]}
                 break
             post = ref_profile(demands[:p] + [target] + demands[p:])
             post_ok = z3.And(*[l <= capacity.t for l in post])
@@ -997,6 +1003,14 @@ def ob_total_cost_fold(ctx, bits=16, rate_vectors=None):
                 else:
                     claim = out.discr == 0
                 if not decide_claim(ctx, res, env, st, claim, what=f'{name}: acc + vehicle cost + driver cost'):
+                    if res.model is not None and present:
+                        m = res.model
+                        spec0 = TourSpec(drivers.Env(ctx.prog, ctx.layout, bits), 0, True)
+                        res.case = {'kind': 'total_cost', 'closed': True, 'shift_start': 0, 'dep0': 0, 'shift_end': 100000, 'l0': 0, 'lend': 0, 'jobs': [],
+                                    'dur': [], 'dist': [], 'dur_default': 0, 'dist_default': 0,
+                                    'vehicle_costs': {k: _ev_f(m, v) for k, v in spec.vehicle_costs_sym.items()},
+                                    'driver_costs': {k: _ev_f(m, v) for k, v in spec.driver_costs_sym.items()},
+                                    'set_total_distance': _ev_f(m, td), 'set_total_duration': _ev_f(m, tdur)}
                     break
                 if not no_panic(ctx, res, env, st, what=name):
                     break
@@ -1279,6 +1293,7 @@ def ob_deep_copy(ctx, k, closed):
         env.field(rc, 'context::RouteContext', 'cache').fields[0] = BV(z3.Bool('is_stale'))
         env.state_of(rc).table['total_distance'] = env.sym_f('cached_td')
         holder['orig'] = rc
+        holder['spec'] = spec
         return eng.exec_fn(st, fns[0], [RefV(Cell(rc), 0)])
 
     paths = eng.explore(body)
@@ -1303,6 +1318,8 @@ def ob_deep_copy(ctx, k, closed):
         td = env.state_of(out).table.get('total_distance')
         claims.append(f_eq(td, env.sym_f('cached_td')) if td is not None else z3.BoolVal(False))
         if not decide_claim(ctx, res, env, st, z3.And(*claims), what=f'{name}: copy equals original incl. stale flag'):
+            if res.model is not None:
+                res.case = make_case('deep_copy', env, holder['spec'], res.model)
             break
         if not no_panic(ctx, res, env, st, what=name):
             break
@@ -1382,6 +1399,11 @@ def ob_time_aware_provider(ctx, n_ts):
                         claims = [z3.Or(*[z3.And(q.v > ts[i].t, q.v < ts[i + 1].t) for i in range(n_ts - 1)])]
                     if not decide_claim(ctx, res, env, st, z3.And(*claims), what=f'{name}: {which}({frm},{to}) equals the specified matrix value',
                                         ignore_side=st.tainted):
+                        if res.model is not None:
+                            m = res.model
+                            res.case = {'kind': 'time_aware', 'size': size, 'from': frm, 'to': to, 'query': _ev_int(m, q.v),
+                                        'matrices': [{'timestamp': _ev_int(m, ts[i].t), 'durations': [_ev_int(m, v.v) for v in vals[i][0]],
+                                                      'distances': [_ev_int(m, v.v) for v in vals[i][1]]} for i in range(n_ts)]}
                         break
                     if not no_panic(ctx, res, env, st, what=name):
                         break
